@@ -23,6 +23,19 @@ def generate(fa, algos, req, ctxs):
         graph = ctx.trace(func, *req["sig"], **req["kwargs"])
         graph = graph.rewrite(target, fa.rewrite, fa.rewrite)
         return graph.tostring(target, tab="")
+    if req["kind"] == "provider":
+        # two revisions of a user module: same __name__, different definition of `square` (the python target has no native
+        # square, so the expansion pass looks the implementation up in the context's paths)
+        class user_impl:   # noqa: N801
+            @staticmethod
+            def square(ctx, x):
+                return x * x if req["provider"] == "A" else ctx.exp(ctx.log(abs(x)) * 2)
+        user_impl.__name__ = "user_impl"
+        ctx = fa.Context(paths=[user_impl])
+        def user_fn(ctx, x):
+            return ctx.square(x) + x
+        graph = ctx.trace(user_fn, *req["sig"]).rewrite(target, fa.rewrite)
+        return graph.tostring(target)
     func = getattr(fa.algorithms, req["func"]) if req["kind"] == "algorithm" else getattr(algos, req["func"])
     kw = dict(paths=[fa.algorithms])
     if req.get("enable_alt"):
@@ -36,7 +49,7 @@ def generate(fa, algos, req, ctxs):
     else:
         ctx = fa.Context(**kw)
     graph = ctx.trace(func, *req["sig"]).rewrite(target, fa.rewrite)
-    return graph.tostring(target, debug=req.get("debug", 0))
+    return graph.tostring(target, debug=req.get("debug", 0), **(req.get("printer_kw") or {}))
 
 
 def run_history(fa, algos, alphabet, hist):
